@@ -56,6 +56,11 @@ def gen_specs(run):
                 rr[T - 2] = gen.hx((int_of_hex_le(rr[T - 2]) + dlt) % L)
                 rr[T - 1] = gen.hx((int_of_hex_le(rr[T - 1]) - dlt) % L)
                 variants.append(("witness (same commitment, extended masks only)", x))
+            if v2 is not None:
+                # the same change of witness made IN PLACE: the caller keeps the witness object of the first run and overwrites its openings
+                x = copy.deepcopy(variants[1][1])
+                x["reuse_witness_of"] = 0
+                variants.append(("witness (same commitment, written into the first run's witness object)", x))
             x = copy.deepcopy(base)
             x["ctx"] = {"label": "other-ctx"}
             variants.append(("context", x))
